@@ -14,6 +14,8 @@ func Run(r *ev.Run) {
 	if par.InBFSWorker() == "" {
 		runReaders(r)
 		runCallbacks(r)
+		runLarge(r)
+		r.Rule += "; part 4: requests of several MiB of output (one package beyond the Demon's 3 MiB mark, several that pass or straddle it), every output compared with the console"
 	}
 	res := runRegHistories(r)
 	r.Extra["registration_histories"] = map[string]any{"states": res.States, "transitions": res.Transitions, "depth_completed": res.Depth, "new_states_by_depth": res.ByDepth}
